@@ -532,7 +532,17 @@ def part_recipe(rng, node=None, simple=0.5):
                 key = index = None
         cond = tree_recipe(rng, depth=rng.randint(0, 2), kinds=ck, null_p=0.15)
     label = rng.choice([None, None, None, None, None, "lab", "x", "", 0, False])       # falsy labels are labels
-    return {"rk": rk, "key": key, "index": index, "value": value, "cond": cond, "label": label}
+    out = {"rk": rk, "key": key, "index": index, "value": value, "cond": cond, "label": label}
+    if rk == "mol" and rng.random() < 0.3:
+        # the two slots of their own of a map-or-list part, given explicitly (list_condition= / map_condition=, any
+        # condition: index / key leaves mixed with value leaves), by keyword or BY POSITION (the 4th / 5th parameter)
+        which = rng.choice(["l", "m", "both", "both"])
+        if which in ("l", "both"):
+            out["lcond"] = tree_recipe(rng, depth=rng.randint(0, 2), kinds=list(INDEX_KINDS) + (list(VALUE_KINDS) if rng.random() < 0.6 else []), null_p=0.1)
+        if which in ("m", "both"):
+            out["mcond"] = tree_recipe(rng, depth=rng.randint(0, 2), kinds=list(KEY_KINDS) + (list(VALUE_KINDS) if rng.random() < 0.6 else []), null_p=0.1)
+        out["pos"] = rng.random() < 0.5
+    return out
 
 
 def prim_part(rng, node):
@@ -594,4 +604,10 @@ def build_part(p):
         return dp.MapValue(key=build_arg(p["key"]), **kw)
     if p["rk"] == "list":
         return dp.ListValue(index=build_arg(p["index"]), **kw)
-    return dp.MapOrListValue(key=build_arg(p["key"]), index=build_arg(p["index"]), **kw)
+    if p.get("lcond") is None and p.get("mcond") is None:
+        return dp.MapOrListValue(key=build_arg(p["key"]), index=build_arg(p["index"]), **kw)
+    if p.get("pos"):        # documented parameter order: key, index, value, list_condition, map_condition, condition, label
+        return dp.MapOrListValue(build_arg(p["key"]), build_arg(p["index"]), kw["value"], build_arg(p.get("lcond")),
+                                 build_arg(p.get("mcond")), kw["condition"], p["label"])
+    return dp.MapOrListValue(key=build_arg(p["key"]), index=build_arg(p["index"]), list_condition=build_arg(p.get("lcond")),
+                             map_condition=build_arg(p.get("mcond")), **kw)
